@@ -71,7 +71,7 @@ def short(nodes):
         if n["kind"] == "S":
             out.append("%s[%s]" % (n["mem"], n["t"]))
         elif n["kind"] == "T":
-            out.append("for %s:%d" % (n["rv"], n["tile"]))
+            out.append("for %s:%s" % (n["rv"], n["tile"]))
         else:
             out.append("MAC")
     return " / ".join(out)
